@@ -64,6 +64,21 @@ def witness_cases():
     races.append({"datasets": ["a"], "ops": [{"op": "batch", "ds": "a", "ents": [sc.with_id("e1", A), sc.with_id("e3", A)]},
                                              {"op": "batch", "ds": "a", "ents": retry, "reject": True}] + race_fin
                   + [{"op": "batch", "ds": "a", "ents": retry}] + race_fin + [{"op": "seqs", "ds": "a"}]})
+    # a batch into b is refused while the writer of a stands between asserting its new ids and committing them; after a restart
+    # the identical re-post adds nothing
+    R1 = {"props": {"p1": "a"}, "refs": {"r1": "e2"}}
+    fresh = [sc.with_id("e7", A), sc.with_id("e8", R1), sc.with_id("e9", B)]
+    races.append({"datasets": ["a", "b"], "ops": [{"op": "batch", "ds": "a", "ents": fresh, "refuse_during": "b"}] + race_fin
+                  + [{"op": "restart"}, {"op": "batch", "ds": "a", "ents": fresh}] + race_fin
+                  + [{"op": "batch", "ds": "a", "ents": fresh}] + fin})
+    # two writers store the same brand-new ids into different datasets at the same moment (4 rounds); the identical re-post adds nothing
+    par_ops = []
+    for rnd in range(4):
+        ents = [sc.with_id("e%d" % (2000 + rnd * 150 + i), {"props": {"p1": i % 4}, "refs": {}}) for i in range(150)]
+        par_ops.append({"op": "par", "sets": [{"ds": "a", "ents": ents}, {"ds": "b", "ents": ents}]})
+        par_ops += [{"op": "batch", "ds": "a", "ents": ents}, {"op": "batch", "ds": "b", "ents": ents}]
+    races.append({"datasets": ["a", "b"], "ops": par_ops + [{"op": "changes", "ds": "a", "since": 590, "limit": 0},
+                                                            {"op": "changes", "ds": "b", "since": 590, "limit": 0}]})
     many = [sc.with_id("e%d" % i, {"props": {"p1": i % 3}, "refs": {}}) for i in list(range(1, 24)) + [5, 5, 12]]
     http = {"datasets": ["a"], "ops": [
         # the same feed through the real HTTP handlers: POST cut into batches of 10, GET changes forward / latest-only / reverse
